@@ -135,6 +135,32 @@ fn op_probe(t: &crate::fsseam::TraceEntry, kind: &str) -> String {
     format!("{kind}@{role}")
 }
 
+/// `.bins.staging-<pid>-<random>` -> `.bins.staging-*` (also inside error texts)
+pub fn norm_name(s: &str) -> String {
+    let mut out = String::new();
+    let mut rest = s;
+    while let Some(i) = rest.find(".staging-") {
+        out.push_str(&rest[..i + 9]);
+        out.push('*');
+        let tail = &rest[i + 9..];
+        let end = tail.find(|c: char| !(c.is_ascii_hexdigit() || c == '-')).unwrap_or(tail.len());
+        rest = &tail[end..];
+    }
+    out.push_str(rest);
+    out
+}
+
+/// Error text made replay-stable: staging names and the per-process sandbox path are masked.
+pub fn norm_err(s: &str) -> String {
+    let mut t = norm_name(s);
+    while let Some(i) = t.find("/dev/shm/qpz-verif-") {
+        let tail = &t[i..];
+        let end = tail.find("/fs/").map(|e| e + 3).unwrap_or(tail.len());
+        t = format!("{}<sandbox>{}", &t[..i], &tail[end..]);
+    }
+    t
+}
+
 pub fn errno_name(e: i32) -> String {
     ERRNOS.iter().find(|(n, _)| *n == e).map(|(_, s)| s.to_string()).unwrap_or_else(|| format!("E{e}"))
 }
@@ -260,7 +286,7 @@ pub fn run_scenario(sb: &mut Sandbox, gens: &[Gen], sc: &Scenario) -> Eval {
         }
         match kind.as_str() {
             "ok" if !is_new => ev.findings.push(("publish:ok-but-not-live".into(), format!("{tag}: success reported but the new set is not live"))),
-            "err" if is_new => ev.findings.push(("publish:err-but-live".into(), format!("{tag}: failure reported but the new set is live ({})", res.error))),
+            "err" if is_new => ev.findings.push(("publish:err-but-live".into(), format!("{tag}: failure reported but the new set is live ({})", norm_err(&res.error)))),
             _ => {}
         }
         if kind == "panic" {
@@ -283,14 +309,16 @@ pub fn run_scenario(sb: &mut Sandbox, gens: &[Gen], sc: &Scenario) -> Eval {
                 // (whatever the staging directory is called) is a staging leftover
                 let left: Vec<&&String> = fresh.iter().filter(|n| work.join(n.as_str()) != staging).collect();
                 if !left.is_empty() && !cleanup_faulted {
-                    ev.findings.push(("publish:staging-left-behind".into(), format!("{tag}: generation failed ({}) and left {:?} behind", res.error, left)));
+                    // names carry the pid and a random suffix: keep them out of the (replayable) finding text
+                    let left_n: Vec<String> = left.iter().map(|n| norm_name(n)).collect();
+                    ev.findings.push(("publish:staging-left-behind".into(), format!("{tag}: generation failed ({}) and left {:?} behind", norm_err(&res.error), left_n)));
                 }
                 ev.probes.inc("generation_failed_before_publish");
             }
         }
         // (a regular file at the output path is refused by design: not a progress failure)
         if is_final && !(kind == "ok" && is_new) && !matches!(prev_state, Prev::File(_)) {
-            ev.findings.push(("publish:no-progress-after-faults".into(), format!("{tag}: a fault-free publish after the last fault did not succeed ({})", res.error)));
+            ev.findings.push(("publish:no-progress-after-faults".into(), format!("{tag}: a fault-free publish after the last fault did not succeed ({})", norm_err(&res.error))));
         }
         // abstract state
         let mut st = vec![match &now_state {
